@@ -360,6 +360,8 @@ def check_repl(case, ctx):
     from .. import cli
     from . import c12
     sess, k, toks, pre = case
+    if sess['kw'].get('sv', R.BASE) != R.BASE:
+        return          # (the program runs a script given on its command line as a legacy script: other versions have no counterpart here)
     h = harness()
     kw = dict(sess['kw'])
     ecmd = lambda T: 'e:' + '+'.join(A.render(t).encode().hex() for t in T)
@@ -394,6 +396,8 @@ def check_repl(case, ctx):
 @st.composite
 def repl_cases(draw):
     sess = draw(st.one_of(SS.plain('ctrl', short=True), SS.plain('altstack', short=True), SS.plain('mixed', short=True), SS.plain('arith', short=True)))
+    # a script given on the command line is a legacy script: the harness session must be one too (it can be asked for any script version, the program cannot)
+    sess = dict(sess, kw=dict(sess['kw'], sv=R.BASE))
     return (sess, draw(st.integers(0, 6)), draw(st.lists(token(), min_size=1, max_size=6)), None)
 
 
